@@ -60,12 +60,20 @@ func driveBimap(plan []M, out *Out, _ []string) {
 			}
 		})
 		var oa, ob M
-		p2 := protect(func() { oa, ob = obsBimap(bm["a"], nk, nv), obsBimap(bm["b"], nk, nv) })
+		quiet := boolean(c, "q") // large universes: the whole API is read back only at chosen points, Len always
+		e["q"] = quiet
+		p2 := protect(func() {
+			if quiet {
+				oa, ob = M{"len": bm["a"].Len()}, M{"len": bm["b"].Len()}
+				return
+			}
+			oa, ob = obsBimap(bm["a"], nk, nv), obsBimap(bm["b"], nk, nv)
+		})
 		if e["panic"] == "" {
 			e["panic"] = p2
 		}
 		e["obs"] = M{"a": oa, "b": ob}
-		if oa != nil && ob != nil {
+		if oa != nil && ob != nil && !quiet {
 			e["x"] = M{"a": oa["fw"], "b": ob["fw"]}
 		}
 		out.Emit(e)
